@@ -623,13 +623,29 @@ pub fn worker(args: &[String]) -> i32 {
     let to: u64 = args[4].parse().unwrap();
     let every: u64 = args[5].parse().unwrap();
     let space = Space::new(tier);
-    let out = std::io::stdout();
-    let mut out = out.lock();
+    let mut out = std::io::stdout();
     let mut outcomes: BTreeMap<String, u64> = BTreeMap::new();
     let mut n = 0u64;
     let to = to.min(space.total());
     let mut idx = from + (shard + nshards - from % nshards) % nshards;
+    // a case that does not come back within 8 s is a hang: say which one and give up the process
+    // (a spinning thread cannot be stopped from inside)
+    let beat = std::sync::Arc::new((std::sync::atomic::AtomicU64::new(idx), std::sync::Mutex::new(Instant::now())));
+    {
+        let beat = beat.clone();
+        std::thread::spawn(move || loop {
+            std::thread::sleep(Duration::from_millis(500));
+            let since = beat.1.lock().unwrap().elapsed();
+            if since > Duration::from_secs(8) {
+                let i = beat.0.load(std::sync::atomic::Ordering::SeqCst);
+                println!("{}", json!({"t": "hang", "i": i}));
+                std::process::exit(3);
+            }
+        });
+    }
     while idx < to {
+        beat.0.store(idx, std::sync::atomic::Ordering::SeqCst);
+        *beat.1.lock().unwrap() = Instant::now();
         if n % every == 0 {
             writeln!(out, "{}", json!({"t": "at", "i": idx})).unwrap();
             out.flush().unwrap();
@@ -670,6 +686,8 @@ struct WorkerResult {
     outcomes: BTreeMap<String, u64>,
     violations: Vec<Value>,
     timed_out: bool,
+    /// the worker reported that this case did not come back
+    hang_at: Option<u64>,
 }
 
 fn spawn_worker(tier: Tier, shard: u64, nshards: u64, from: u64, to: u64, every: u64, stall: Duration) -> WorkerResult {
@@ -705,6 +723,7 @@ fn spawn_worker(tier: Tier, shard: u64, nshards: u64, from: u64, to: u64, every:
         outcomes: BTreeMap::new(),
         violations: Vec::new(),
         timed_out: false,
+        hang_at: None,
     };
     loop {
         match rx.recv_timeout(stall) {
@@ -715,6 +734,7 @@ fn spawn_worker(tier: Tier, shard: u64, nshards: u64, from: u64, to: u64, every:
                 };
                 match v["t"].as_str() {
                     Some("at") => r.last_at = v["i"].as_u64().unwrap(),
+                    Some("hang") => r.hang_at = v["i"].as_u64(),
                     Some("v") => r.violations.push(v),
                     Some("done") => {
                         r.done = true;
@@ -805,6 +825,32 @@ pub fn c05(ctx: &Ctx) -> Report {
         }
         ctx.merge_outcomes(&r.outcomes);
         evaluations += r.n;
+        let mut r = r;
+        let mut restarts = 0;
+        while let (false, Some(at)) = (r.done, r.hang_at) {
+            let c = space.case(at);
+            ctx.violation(
+                "C05:hang".to_string(),
+                format!("{}: the call did not come back within 8 s (the worker process gave itself up)", c.label),
+                json!({"engine": "c05", "case": c}),
+                at,
+            );
+            lost += 1;
+            restarts += 1;
+            if restarts >= 3 {
+                // the verdict is in; every further hanging case costs 8 s
+                ctx.count("shards_cut_short_after_3_hangs", 1);
+                r.done = true;
+                break;
+            }
+            let rest = spawn_worker(tier, sh, nshards, at + 1, total, every, stall);
+            for v in &rest.violations {
+                ctx.violation(format!("C05:{}", v["sig"].as_str().unwrap()), v["what"].as_str().unwrap().to_string(), json!({"engine": "c05", "case": v["case"]}), v["rank"].as_u64().unwrap());
+            }
+            ctx.merge_outcomes(&rest.outcomes);
+            evaluations += rest.n;
+            r = rest;
+        }
         if !r.done {
             // the worker died or hung: find the case by re-running its last announced stretch one
             // case per announcement
